@@ -1026,7 +1026,8 @@ def _max_overlap_image(refimage, images, enforce_user_order):
 
     if enforce_user_order:
         # revert to old tweakreg behavior
-        return images.pop(0), None
+        image = images.pop(0)
+        return image, refimage._guarded_intersection_area(image)[0]
 
     n_malformed = 0
     overlap_area = []
